@@ -5,7 +5,7 @@ use crate::{Args, Out};
 use dlharness::*;
 use serde_json::json;
 
-const JSX_BODIES: &[&str] = &[
+pub const JSX_BODIES: &[&str] = &[
   "const a = <div>hi</div>;",
   "const b = <><span/></>;",
   "export const C = () => <Foo x={1}><Bar/></Foo>;",
@@ -13,7 +13,7 @@ const JSX_BODIES: &[&str] = &[
   "const e = 1;",
   "let f = h; f = <p/>;",
 ];
-const IMPORTS: &[&str] = &[
+pub const IMPORTS: &[&str] = &[
   "import { h } from \"preact\";",
   "import { h, Fragment } from \"preact\";",
   "import React from \"react\";",
@@ -23,9 +23,9 @@ const IMPORTS: &[&str] = &[
   "const h = 1, Fragment = 2, React = 3;",
   "",
 ];
-const PRAGMAS: &[&str] = &["", "/** @jsx h */\n", "/** @jsx h */\n/** @jsxFrag Fragment */\n", "/** @jsx React.createElement */\n", "// @jsx h\n"];
-const FACTORIES: &[Option<&str>] = &[None, Some("h"), Some("React.createElement"), Some("createElement"), Some("jsx"), Some("a.b.c")];
-const FRAGS: &[Option<&str>] = &[None, Some("Fragment"), Some("React.Fragment"), Some("F")];
+pub const PRAGMAS: &[&str] = &["", "/** @jsx h */\n", "/** @jsx h */\n/** @jsxFrag Fragment */\n", "/** @jsx React.createElement */\n", "// @jsx h\n"];
+pub const FACTORIES: &[Option<&str>] = &[None, Some("h"), Some("React.createElement"), Some("createElement"), Some("jsx"), Some("a.b.c")];
+pub const FRAGS: &[Option<&str>] = &[None, Some("Fragment"), Some("React.Fragment"), Some("F")];
 
 fn idents_of(expr: &str) -> Vec<String> {
   expr.split('.').take(1).map(|s| s.to_string()).collect() // only the root object is a variable reference
